@@ -2,6 +2,8 @@
 package c05
 
 import (
+	"path/filepath"
+	"os"
 	"errors"
 	"bytes"
 	"crypto/sha256"
@@ -37,6 +39,7 @@ type WCase struct {
 	Enc        bool   `json:"enc"`
 	Comp       bool   `json:"comp"`
 	Transport  string `json:"transport"` // tcp websocket kcp quic
+	LoseTLS    bool   `json:"lose_tls_files"` // fault: the client's trusted-CA file disappears after start-up, then every connection is cut
 	TCPMux     bool   `json:"tcpmux"`
 	KB         int    `json:"kb"` // payload size per direction
 }
@@ -51,6 +54,9 @@ func genW(t *rapid.T) WCase {
 	c.Force = c.TLS && rapid.Bool().Draw(t, "force")
 	if c.Transport == "quic" {
 		c.TLS = true // quic always runs over TLS
+	}
+	if c.TLS && (c.Transport == "tcp" || c.Transport == "websocket") {
+		c.LoseTLS = rapid.IntRange(0, 3).Draw(t, "losetls") == 0
 	}
 	return c
 }
@@ -140,6 +146,24 @@ func runW(c WCase) error {
 	common.Transport.TLS.Enable = lo.ToPtr(c.TLS)
 	common.Transport.TLS.DisableCustomTLSFirstByte = lo.ToPtr(!c.CustomByte)
 	common.Metadatas = map[string]string{"m": metaVal}
+	caCopy := ""
+	if c.LoseTLS {
+		// the client verifies the server against a CA file of its own, which will disappear
+		dir, e := os.MkdirTemp("", "frp-verif-c05")
+		if e != nil {
+			return fx.Inconclusive("%v", e)
+		}
+		defer os.RemoveAll(dir)
+		b, e := os.ReadFile(fx.GetCerts().CA)
+		if e != nil {
+			return fx.Inconclusive("%v", e)
+		}
+		caCopy = filepath.Join(dir, "ca.crt")
+		if e := os.WriteFile(caCopy, b, 0o600); e != nil {
+			return fx.Inconclusive("%v", e)
+		}
+		common.Transport.TLS.TrustedCaFile, common.Transport.TLS.ServerName = caCopy, "frps.test"
+	}
 	tp := &v1.TCPProxyConfig{}
 	tp.Name, tp.Type, tp.LocalIP, tp.LocalPort, tp.RemotePort = pname, "tcp", "127.0.0.1", bport, s.AllowPort(0)
 	tp.Transport.UseEncryption, tp.Transport.UseCompression = c.Enc, c.Comp
@@ -190,6 +214,17 @@ func runW(c WCase) error {
 	if e := fx.WaitListen(fmt.Sprintf("127.0.0.1:%d", vis.BindPort), 3*time.Second); e == nil {
 		if e := xfer(fmt.Sprintf("127.0.0.1:%d", vis.BindPort)); e != nil {
 			return fx.Inconclusive("transfer through the stcp visitor failed: %v", e)
+		}
+	}
+	if c.LoseTLS {
+		// fault: the TLS material can no longer be loaded; every connection is cut, the client dials again and
+		// users keep connecting. Whatever then crosses the path must still be TLS - or nothing at all.
+		_ = os.Remove(caCopy)
+		relay.Cut()
+		deadline := time.Now().Add(2500 * time.Millisecond)
+		for time.Now().Before(deadline) {
+			_ = xfer(fmt.Sprintf("127.0.0.1:%d", s.AllowPort(0)))
+			time.Sleep(150 * time.Millisecond)
 		}
 	}
 	time.Sleep(30 * time.Millisecond)
